@@ -3,8 +3,11 @@
   seeds  - one line per independently seeded change: what it breaks and which checks catch it (from seeded/*/meta.json)
   sens   - summary of the sensitivity trials (from notes/sensitivity.jsonl)
 """
-import json, os, glob, re
+import json, os, sys, glob, re
 VERIF = os.path.dirname(os.path.dirname(os.path.abspath(__file__)))
+sys.path.insert(0, os.path.join(VERIF, "tools"))
+from mutants import MUTANTS  # noqa: E402
+REGISTERED = {(m["name"], p) for m in MUTANTS for p in m["props"]}
 
 def seeds():
     rows = []
@@ -29,7 +32,8 @@ def sens():
         r = json.loads(l)
         for p in r.get("props", []):
             if p in r:
-                last[(r["mutant"], p)] = r[p]
+                if (r["mutant"], p) in REGISTERED:
+                    last[(r["mutant"], p)] = r[p]
     by = {}
     for (m, p), res in last.items():
         d = by.setdefault(p, [0, 0, []])
